@@ -299,6 +299,11 @@ fn family(name: &str, d: usize) -> Vec<u8> {
         "array32" => rep(&[0xf0, 0x00, 0xff, 0xff, 0xff, 0, 0, 0, 1], &[0x40]),
         "described" => rep(&[0x00, 0x44], &[0x40]),
         "described-desc" => rep(&[0x00], &[0x44, 0x40]),
+        "described-sym" => rep(&[0x00, 0xa3, 0x01, 0x61], &[0x40]),
+        "described-ulong" => rep(&[0x00, 0x80, 0, 0, 0, 0, 0, 0, 0, 0x77], &[0x40]),
+        "described-list" => rep(&[0x00, 0x53, 0x77, 0xc0, 0xff, 0x01], &[0x40]),
+        "mixed" => rep(&[0xc0, 0xff, 0x01, 0xc1, 0xff, 0x02, 0x40, 0xe0, 0xff, 0x01, 0x00, 0x44], &[0x40]),
+        "amqp-value-nest" => { let mut v = vec![0x00, 0x53, 0x77]; v.extend(rep(&[0xc0, 0xff, 0x01], &[0x40])); v },
         "bin32-huge" => if d == 1 { vec![0xb0, 0x80, 0, 0, 0] } else { vec![0xb0, 0xff, 0xff, 0xff, 0xff, 1, 2, 3] },
         "str32-huge" => if d == 1 { vec![0xb1, 0x80, 0, 0, 0] } else { vec![0xb1, 0xff, 0xff, 0xff, 0xff, 97, 98, 99] },
         "sym32-huge" => if d == 1 { vec![0xb3, 0x80, 0, 0, 0] } else { vec![0xb3, 0xff, 0xff, 0xff, 0xff, 97, 98, 99] },
@@ -354,13 +359,15 @@ fn entry_msg(b: &[u8], reader: bool) -> (&'static str, &'static str) {
     (tag(&r), idem)
 }
 
-fn decode_case(c: &J) -> J {
+fn decode_case(c: &J, only: Option<usize>) -> J {
     let fam = c["k"] == "family";
     let b: Vec<u8> = if fam { family(c["src"].as_str().unwrap(), c["b"][0].as_u64().unwrap() as usize) } else { bytes(&c["b"]) };
     let mark = mon::alloc_mark();
     let t0 = mon::thread_cpu_ns();
+    let want = |i: usize| only.is_none() || only == Some(i);
     // Value through the slice reader: its result is logged in abstract form for the spec to judge
-    let rv = guarded(|| serde_amqp::from_slice::<Value>(&b));
+    // (in an isolated run of another entry point the Value decode is left out, so that a decoder that dies is named by its own run)
+    let rv = if want(0) { guarded(|| serde_amqp::from_slice::<Value>(&b)) } else { Err("skip") };
     let v = match &rv { Ok(x) if !fam => unbuild(x), _ => json!({"t": "null"}) };
     let mut st = vec![tag(&rv)];
     let mut idem = vec![match &rv {
@@ -371,45 +378,59 @@ fn decode_case(c: &J) -> J {
         },
         Err(_) => "na",
     }];
-    let mut push = |r: (&'static str, &'static str)| { st.push(r.0); idem.push(r.1); };
-    push(entry::<Value>(&b, true));
-    push(entry::<performatives::Performative>(&b, false));
-    push(entry::<performatives::Performative>(&b, true));
-    push(entry::<fe2o3_amqp::frames::sasl::Frame>(&b, false));
-    push(entry_msg(&b, false));
-    push(entry_msg(&b, true));
-    push(entry::<messaging::DeliveryState>(&b, false));
-    push(entry::<definitions::Error>(&b, false));
-    push(entry::<messaging::Source>(&b, false));
+    let mut push = |i: usize, f: &mut dyn FnMut() -> (&'static str, &'static str)| { let r = if want(i) { f() } else { ("skip", "na") }; st.push(r.0); idem.push(r.1); };
+    push(1, &mut || entry::<Value>(&b, true));
+    push(2, &mut || entry::<performatives::Performative>(&b, false));
+    push(3, &mut || entry::<performatives::Performative>(&b, true));
+    push(4, &mut || entry::<fe2o3_amqp::frames::sasl::Frame>(&b, false));
+    push(5, &mut || entry_msg(&b, false));
+    push(6, &mut || entry_msg(&b, true));
+    push(7, &mut || entry::<messaging::DeliveryState>(&b, false));
+    push(8, &mut || entry::<definitions::Error>(&b, false));
+    push(9, &mut || entry::<messaging::Source>(&b, false));
     // lazy value: must hold exactly the bytes of the first value
-    let lz = guarded(|| serde_amqp::from_slice::<serde_amqp::lazy::LazyValue>(&b));
-    push((tag(&lz), match (&lz, &rv) { (Ok(l), Ok(_)) => if b.starts_with(l.as_slice()) { "ok" } else { "differs" }, _ => "na" }));
+    push(10, &mut || {
+        let lz = guarded(|| serde_amqp::from_slice::<serde_amqp::lazy::LazyValue>(&b));
+        (tag(&lz), match (&lz, &rv) { (Ok(l), Ok(_)) => if b.starts_with(l.as_slice()) { "ok" } else { "differs" }, _ => "na" })
+    });
     // frame body through the AMQP frame decoder (doff 2, type 0, channel 0 prepended)
     {
         use tokio_util::codec::Decoder;
-        let mut src = bytes::BytesMut::with_capacity(b.len() + 4);
-        src.extend_from_slice(&[2, 0, 0, 0]);
-        src.extend_from_slice(&b);
-        let r = match catch_unwind(AssertUnwindSafe(|| (fe2o3_amqp::frames::amqp::FrameDecoder {}).decode(&mut src))) { Ok(Ok(_)) => "ok", Ok(Err(_)) => "err", Err(_) => "panic" };
-        push((r, "na"));
-        let mut src = bytes::BytesMut::with_capacity(b.len() + 4);
-        src.extend_from_slice(&[2, 1, 0, 0]);
-        src.extend_from_slice(&b);
-        let r = match catch_unwind(AssertUnwindSafe(|| (fe2o3_amqp::frames::sasl::FrameCodec {}).decode(&mut src))) { Ok(Ok(_)) => "ok", Ok(Err(_)) => "err", Err(_) => "panic" };
-        push((r, "na"));
+        push(11, &mut || {
+            let mut src = bytes::BytesMut::with_capacity(b.len() + 4);
+            src.extend_from_slice(&[2, 0, 0, 0]);
+            src.extend_from_slice(&b);
+            let r = match catch_unwind(AssertUnwindSafe(|| (fe2o3_amqp::frames::amqp::FrameDecoder {}).decode(&mut src))) { Ok(Ok(_)) => "ok", Ok(Err(_)) => "err", Err(_) => "panic" };
+            (r, "na")
+        });
+        push(12, &mut || {
+            let mut src = bytes::BytesMut::with_capacity(b.len() + 4);
+            src.extend_from_slice(&[2, 1, 0, 0]);
+            src.extend_from_slice(&b);
+            let r = match catch_unwind(AssertUnwindSafe(|| (fe2o3_amqp::frames::sasl::FrameCodec {}).decode(&mut src))) { Ok(Ok(_)) => "ok", Ok(Err(_)) => "err", Err(_) => "panic" };
+            (r, "na")
+        });
         // the same body behind every other kind of frame header: data offsets 0, 1, 3, 64, 255, and the input itself taken as the whole frame
-        let mut worst = "err";
-        for hdr in [Some([0u8, 0, 0, 0]), Some([1, 0, 0, 0]), Some([3, 0, 0, 0]), Some([64, 0, 0, 0]), Some([255, 0, 0, 0]), Some([3, 1, 0, 0]), Some([255, 1, 0, 0]), None] {
-            for sasl in [false, true] {
-                let mut src = bytes::BytesMut::with_capacity(b.len() + 4);
-                if let Some(h) = hdr { if sasl != (h[1] == 1) { continue; } src.extend_from_slice(&h); }
-                src.extend_from_slice(&b);
-                let r = if sasl { match catch_unwind(AssertUnwindSafe(|| (fe2o3_amqp::frames::sasl::FrameCodec {}).decode(&mut src))) { Ok(Ok(_)) => "ok", Ok(Err(_)) => "err", Err(_) => "panic" } }
-                        else { match catch_unwind(AssertUnwindSafe(|| (fe2o3_amqp::frames::amqp::FrameDecoder {}).decode(&mut src))) { Ok(Ok(_)) => "ok", Ok(Err(_)) => "err", Err(_) => "panic" } };
-                if r == "panic" { worst = "panic"; } else if r == "ok" && worst != "panic" { worst = "ok"; }
+        push(13, &mut || {
+            let mut worst = "err";
+            for hdr in [Some([0u8, 0, 0, 0]), Some([1, 0, 0, 0]), Some([3, 0, 0, 0]), Some([64, 0, 0, 0]), Some([255, 0, 0, 0]), Some([3, 1, 0, 0]), Some([255, 1, 0, 0]), None] {
+                for sasl in [false, true] {
+                    let mut src = bytes::BytesMut::with_capacity(b.len() + 4);
+                    if let Some(h) = hdr { if sasl != (h[1] == 1) { continue; } src.extend_from_slice(&h); }
+                    src.extend_from_slice(&b);
+                    let r = if sasl { match catch_unwind(AssertUnwindSafe(|| (fe2o3_amqp::frames::sasl::FrameCodec {}).decode(&mut src))) { Ok(Ok(_)) => "ok", Ok(Err(_)) => "err", Err(_) => "panic" } }
+                            else { match catch_unwind(AssertUnwindSafe(|| (fe2o3_amqp::frames::amqp::FrameDecoder {}).decode(&mut src))) { Ok(Ok(_)) => "ok", Ok(Err(_)) => "err", Err(_) => "panic" } };
+                    if r == "panic" { worst = "panic"; } else if r == "ok" && worst != "panic" { worst = "ok"; }
+                }
             }
-        }
-        push((worst, "na"));
+            (worst, "na")
+        });
+        // a lazy value and a message through the stream reader (the reader the frame decoders use)
+        push(14, &mut || {
+            let mut src = Chunked { data: &b, pos: 0, chunk: 5 };
+            let lz = guarded(|| serde_amqp::from_reader::<serde_amqp::lazy::LazyValue>(&mut src));
+            (tag(&lz), match (&lz, &rv) { (Ok(l), Ok(_)) => if b.starts_with(l.as_slice()) { "ok" } else { "differs" }, _ => "na" })
+        });
     }
     let cpu_ms = (mon::thread_cpu_ns() - t0) / 1_000_000;
     let peak_kb = mon::alloc_peak_since(mark) / 1024;
@@ -418,21 +439,42 @@ fn decode_case(c: &J) -> J {
            "v": v, "st": st, "idem": idem, "peak_kb": peak_kb.min(1 << 30), "cpu_ms": cpu_ms.min(1 << 30), "panic": panic.chars().take(160).collect::<String>()})
 }
 
-/// vh decode <cases.ndjson> <out.ndjson> [first-index]   (appends to out; one flushed line per case)
+/// Index of the case the decode thread is working on and the process CPU time when it started it (watchdog).
+static CUR_CASE: std::sync::atomic::AtomicUsize = std::sync::atomic::AtomicUsize::new(usize::MAX);
+static CUR_T0: std::sync::atomic::AtomicU64 = std::sync::atomic::AtomicU64::new(0);
+/// CPU budget of one input through all entry points; an input that exceeds it ends the child with a marker (C04 "no hang").
+const CASE_CPU_NS: u64 = 5_000_000_000;
+
+/// vh decode <cases.ndjson> <out.ndjson> [first-index [only-entry-point]]   (appends to out; one flushed line per case;
+/// with an entry point given, only the case at first-index is run and only through that entry point)
 pub fn decode_main(args: &[String]) -> R<()> {
+    use std::sync::atomic::Ordering::SeqCst;
     mon::quiet_panics();
     let inp = std::fs::read_to_string(&args[0]).map_err(|e| e.to_string())?;
     let from: usize = args.get(2).map(|s| s.parse().unwrap()).unwrap_or(0);
+    let only: Option<usize> = args.get(3).map(|s| s.parse().unwrap());
     let mut out = std::fs::OpenOptions::new().create(true).append(true).open(&args[1]).map_err(|e| e.to_string())?;
     let lines: Vec<String> = inp.lines().filter(|l| !l.trim().is_empty()).map(|s| s.to_string()).collect();
     // tokio worker threads have 2 MiB stacks: decode under the same budget
     let h = std::thread::Builder::new().stack_size(2 << 20).spawn(move || -> R<()> {
-        for line in lines.iter().skip(from) {
+        for (i, line) in lines.iter().enumerate().skip(from) {
             let c: J = serde_json::from_str(line).map_err(|e| e.to_string())?;
-            let r = decode_case(&c);
+            CUR_T0.store(mon::process_cpu_ns(), SeqCst);
+            CUR_CASE.store(i, SeqCst);
+            let r = decode_case(&c, only);
             writeln!(out, "{}", r).map_err(|e| e.to_string())?;
+            if only.is_some() { break; }
         }
+        CUR_CASE.store(usize::MAX, SeqCst);
         Ok(())
     }).map_err(|e| e.to_string())?;
+    // watchdog: process CPU time (only the decode thread works), so machine load cannot trip it
+    while !h.is_finished() {
+        std::thread::sleep(std::time::Duration::from_millis(50));
+        if CUR_CASE.load(SeqCst) != usize::MAX && mon::process_cpu_ns().saturating_sub(CUR_T0.load(SeqCst)) > CASE_CPU_NS {
+            eprintln!("VH-CPU-EXCEEDED case {}", CUR_CASE.load(SeqCst));
+            std::process::exit(86);
+        }
+    }
     h.join().map_err(|_| "decode thread panicked".to_string())?
 }
